@@ -52,9 +52,11 @@ func managedType(t string) bool { return t == "WDS" || t == "WL" }
 // expect is what the property demands for one request, given the history.
 type expect struct {
 	respond bool
-	clause  string
-	full    bool     // answered for the whole subscription
-	asked   []string // otherwise: exactly these names (SotW: the added names; delta: the names the request subscribes to)
+	// either: the property does not decide (observation only): the code may stay silent or answer with `asked`
+	either bool
+	clause string
+	full   bool     // answered for the whole subscription
+	asked  []string // otherwise: exactly these names (SotW: the added names; delta: the names the request subscribes to)
 }
 
 // expectSotw classifies a state-of-the-world request and advances the history.
@@ -171,7 +173,10 @@ func (o *histOracle) expectDelta(t string, sub, unsub, init []string, nonce stri
 	case warm:
 		return answered("warming-request-answered-in-full")
 	case carries:
-		return expect{clause: "re-subscription-of-known-names-silent"}
+		// a re-subscription of names already on record changes nothing.  /repo stays silent; the xDS delta protocol
+		// lets (asks) a server re-send a resource the client subscribes to again, so answering with exactly the
+		// re-subscribed names is accepted as well: an OBSERVATION of the code as it is, not a clause of the property
+		return expect{either: true, asked: sets.SortedList(subs), clause: "re-subscription-of-known-names(observation)"}
 	}
 	return expect{clause: "ack-silent"}
 }
